@@ -7,3 +7,6 @@ package simhook
 
 // Yield marks a scheduling point. It does nothing in normal builds.
 func Yield(point string, key func() string) {}
+
+// NoKey is the key function of yield points that have no key.
+func NoKey() string { return "" }
